@@ -282,6 +282,16 @@ def reduce (isBlock : Bool) : RState → List Char → List Char
 def payload? (comment : List Char) : Option (List Char) :=
   (removeCommentHeader? comment).map (reduce (startsWith comment ['/', '*']) .firstLine)
 
+/-- A character that is text: neither white space nor comment decoration (`/`, `*`, `!`). -/
+def isText (c : Char) : Bool := !isWs c && c != '*' && c != '/' && c != '!'
+
+/-- The comment says something (its body is not blank or pure decoration). -/
+def hasText (comment : List Char) : Bool := comment.any isText
+
+/-- Oracle on the real `changed_comment_content(comment, "")` (answer `changed`): a comment with
+text must count for the safety net — dropping it altogether has to be a change. -/
+def dropIsNoticed (comment : List Char) (changed : Bool) : Bool := !hasText comment || changed
+
 /-! ## `changed_comment_content` and `recover_comment_removed` -/
 
 /-- `code_comment_content(code)` as the lazy stream it is: the payload characters of the comment
